@@ -25,6 +25,20 @@ CHECKS = {
         "level_note": "interleavings are those the Go scheduler produced on 16 cores in this run (counter histories_with_overlap), not all; porcupine timeouts are inconclusive",
         "design_ref": "3/C29",
     },
+    "C18": {
+        "level": "exploration",
+        "crash_is_violation": True,
+        "phases": [
+            {"name": "plain", "race": False, "test": "TestC18"},
+            {"name": "race", "race": True, "test": "TestC18"},
+        ],
+        "race_deciding_files": True,
+        "race_func_prefixes": ["transactions.", "client.(*sleepTransaction)", "client.newSleepTransaction"],
+        "technique": "runtime monitoring: invariant probes (completion-callback counter, Err stability, callback-after-Done) over enumerated and colliding operation histories + Go race detector + crash watch",
+        "level_text": "All operation sequences up to length 4 over the six transaction operations are run on five transaction variants in virtual time, plus same-instant and real-time collisions of completion calls with timers; probes assert at-most-once completion. The same workload runs under -race, where a report inside package transactions or the client's sleep transaction (or a nil dereference, seen as a crash) decides.",
+        "level_note": "collision interleavings are sampled by the scheduler (16 cores, repetitions), not enumerated; race detector only sees races that occur in the run",
+        "design_ref": "3/C18",
+    },
     "C19": {
         "level": "exploration",
         "technique": "runtime monitoring in virtual time (testing/synctest): exact timestamped callback/Done log compared with a reference schedule simulation",
